@@ -1,8 +1,9 @@
 #!/bin/bash
-# tools/seeded_battery.sh [tier] [jobs] : every seeded change against the check of its property (scratch worktrees under /tmp/mw, removed afterwards)
+# tools/seeded_battery.sh [tier] [jobs] : every sub-agent-written seeded change against the check(s) that are recorded to catch it
+# (meta.json "caught_by", default: its own property); scratch worktrees under /tmp/mw, removed afterwards.  R-* (reverse fixes): tools/revert_battery.sh
 tier=${1:-quick}; jobs=${2:-4}
 cd /verif
-ls seeded | while read sid; do
-  prop=$(/venv/bin/python -c "import json;print(json.load(open('seeded/$sid/meta.json'))['property'])")
-  echo "$prop seeded/$sid"
-done | xargs -P $jobs -L 1 bash -c 'tools/mutant_eval.sh $0 $1 '"$tier"' 2>&1 | grep RESULT'
+ls seeded | grep -v '^R-' | while read sid; do
+  props=$(/venv/bin/python -c "import json;m=json.load(open('seeded/$sid/meta.json'));print(' '.join(m.get('caught_by',[m['property']])))")
+  echo "$props /verif/seeded/$sid"
+done | xargs -P $jobs -L 1 bash -c 'p=$0; s=${@: -1}; tools/mutant_eval.sh $p $s '"$tier"' 2>&1 | grep RESULT'
